@@ -418,6 +418,68 @@ def o_shared(spec):
     return {"classes": ["reuse>=3"] if uses >= 3 else [], "nontrivial": uses > len(spec["pool"])}
 
 
+# ---------------------------------------------------------------- nearly equal operands in one process
+# The library's hash rounds coefficients to 1e-6 and its == uses np.allclose, so two operators
+# that differ by a few 1e-7 hash and compare equal although they denote different matrices
+# (difference far above the 1e-9 relative accuracy of the arithmetic). Arithmetic must still
+# treat them as the different operators they are, whatever was computed before.
+
+DELTAS = [0.0, 3e-7, -2e-7, 4e-8, 1e-9, 6e-7]
+
+
+def _perturb(c, d):
+    if isinstance(c, list):
+        return ["c", c[1] * (1 + d), c[2] * (1 + d)]
+    return c * (1 + d) if d else c
+
+
+def _variant(x, j, d):
+    if "t" in x:
+        t = dict(x["t"])
+        t["c"] = _perturb(t["c"], d)
+        return {"t": t}
+    ts = [dict(t) for t in x["s"]["terms"]]
+    ts[j % len(ts)]["c"] = _perturb(ts[j % len(ts)]["c"], d)
+    return {"s": {"terms": ts}}
+
+
+@st.composite
+def near_cases(draw, tier):
+    kinds = draw(st.sampled_from([("int",), ("int", "float"), ("complex",), ("int", "complex")]))
+    x = draw(st.one_of(
+        pgen.terms(max_q=3, zero=False, kinds=kinds).map(lambda t: {"t": t}),
+        pgen.sums(max_q=3, max_terms=3, zero=False, kinds=kinds, dup=False).filter(lambda s: s["terms"]).map(lambda s: {"s": s})))
+    y = draw(pgen.operands(max_q=3, numbers=True, zero=False, kinds=("int", "float")))
+    return {"x": x, "y": y, "j": draw(st.integers(0, 3)),
+            "deltas": draw(st.lists(st.sampled_from(DELTAS), min_size=2, max_size=4)),
+            "op": draw(st.sampled_from(["**", "**", "*", "r*", "+", "-", "self*", "/"])), "k": draw(st.integers(2, 4))}
+
+
+def o_near(spec):
+    op = spec["op"]
+    for i, d in enumerate(spec["deltas"]):
+        v = _variant(spec["x"], spec["j"], d)
+        if op == "**":
+            node = {"op": "**", "a": v, "k": spec["k"]}
+        elif op == "self*":
+            node = {"op": "*", "a": v, "b": v}
+        elif op == "r*":
+            node = {"op": "*", "a": spec["y"], "b": v}
+        elif op == "/":
+            node = {"op": "/", "a": v, "s": 3}
+        else:
+            node = {"op": op, "a": v, "b": spec["y"]}
+        R, bound, allow = eval_ref(node)
+        if not np.isfinite(bound) or bound > 1e12:
+            return {"inconclusive": "magnitude_overflow"}
+        L = must(lambda: eval_lib(node), "operator arithmetic")
+        dd = pgen.canon_diff(pgen.canon_of(L), R)
+        tol = 1e-9 * bound + allow + 1e-300
+        require(dd <= tol, lambda: f"operand variant {i} (one coefficient scaled by 1+{d}) under '{op}': result differs from matrix arithmetic by {dd:.3g} > {tol:.3g}; got {L!r}")
+    ds = set(spec["deltas"])
+    return {"classes": ["op" + op], "nontrivial": len(ds) >= 2}
+
+
 SUBCHECKS = [
     SubCheck("exhaustive_products", o_product, enumerate=_enum_products, exhaustive=True, shards=(4, 4),
              rule="all 4096 ordered pairs of 3-qubit Pauli strings vs np.kron matrices; non-trivial = a shared qubit with different letters"),
@@ -432,4 +494,6 @@ SUBCHECKS = [
 ]
 SUBCHECKS.append(SubCheck("shared_operands", o_shared, strategy=shared_cases, examples=(500, 3000), shards=(2, 8),
                           rule="expression DAGs in which the same operand object occurs several times (incl. x+x, x*x, simplify): result == matrix arithmetic and every operand still denotes its matrix; non-trivial = an operand used more than once"))
+SUBCHECKS.append(SubCheck("near_duplicates", o_near, strategy=near_cases, examples=(600, 3000), shards=(2, 8),
+                          rule="2-4 copies of one operand with a coefficient scaled by 1+d, d in {0, 1e-9 .. 6e-7} (hash- and allclose-equal for the library, different matrices), pushed through the same operation one after another in one process: each result equals matrix arithmetic at 1e-9 relative; non-trivial = at least two different d"))
 SUBCHECKS[2].expected_classes = ["phase_table_used", "duplicate_terms", "zero_coefficient", "number_on_left", "empty_sum", "op/", "op**"]
